@@ -11,9 +11,18 @@ CFG = {
         "flip of ct||tag, nonce and aad for small messages; every truncation and extensions by 1..33 bytes; every nonce "
         "length 0..40; every key length 0..80; wrap/unwrap over all payload algorithms; a malformed stream (arbitrary "
         "ciphertext/tag/nonce lengths, wrong algorithm on unwrap, wrong-length keys, a non-AEAD key); the specifications' "
-        "own standard test vectors (self test) and the standards' vectors through LocalKey.  Non-trivial = the case ran at "
+        "own standard test vectors (self test) and the standards' vectors through LocalKey.  THE BUFFER TYPE AS A DIMENSION "
+        "(c12:buf): the crate-level AnyKey::{encrypt_in_place, decrypt_in_place} of every algorithm over Vec, SecretBytes (exact "
+        "capacity) and Writer::from_slice_position(&mut [u8; n], len) with n = exact, exact-1 (clean ExceededBuffer), exact+k with two "
+        "different stale fills — visible bytes, position, returned value and error must equal the Vec run; valid messages around "
+        "the block boundaries, arbitrary bytes to decrypt, wrong nonce lengths, a non-AEAD key; c12:bufops: random sequences of raw "
+        "ResizeBuffer calls (write / insert / remove / resize / extend, within and beyond the capacity, a violated precondition "
+        "now and then) on Writer<[u8]>, Vec and SecretBytes against a list-with-capacity reference; key wrap with aad / nonce in "
+        "every entry point, aead_random_nonce of every key type, the guards of LocalKey::from_seed (unknown method, BLS seeds of "
+        "0 / 31 / 32 / 33 bytes) and Argon2::new (salts of 0..17 bytes) (c12:misc).  Non-trivial = the case ran at "
         "least one successful encryption whose output the model reproduced, or a sweep (flips / resize / nonce_lens / "
-        "keylens) with at least two distinct outcomes; distinct = hash of the case"
+        "keylens) with at least two distinct outcomes, or a buffer case whose reference run succeeded / a bufops case with at least "
+        "two successful steps; distinct = hash of the case"
     ),
     "assumptions": [
         "laws of the third-party primitives, hypotheses of the theorems (structures BlockCipher.Lawful, Mac.Lawful, AeadPrim.Lawful): "
@@ -30,6 +39,13 @@ CFG = {
         "plaintext; the oracle requires rejection for every flip in the MAC half and only forbids the ORIGINAL plaintext for flips in the ENC half",
         "key sizes, nonce and tag lengths of the eight algorithms are copied into the model by hand (Alg.keyLen, Alg.params) and "
         "validated by the keylens / params / nonce_lens cases",
+        "buffer dimension: the contract of ResizeBuffer is the list semantics with a capacity written down in Model/ResizeBuf.lean (LBuf); "
+        "outside its preconditions (insert position > length, remove range outside the buffer — Vec panics there) nothing is required of "
+        "an implementation; Writer::from_slice_position(slice, pos) with pos > slice.len() is outside the domain (caller error); the "
+        "in-place operations are modelled a second time as programs over the trait (Prog) — their list runs are compared with the "
+        "LocalKey-level model by execution on every c12:buf case (Vec column), not by a theorem",
+        "the variant of Writer<[u8]> the driver runs is the constant ResizeBuf.writerFixed (false = today's source) until tools/extract.py "
+        "provides the flag",
     ],
     "trusted_base": [
         "crates aes, cbc, cipher, block-padding, hmac, sha2, aes-gcm, chacha20poly1305, subtle (called, not modelled; their observable "
@@ -46,6 +62,13 @@ def nontrivial(rec):
         return isinstance(out, dict) and all(out.values())
     if kind == "c12:keylens":
         return isinstance(out, list) and len(out) >= 2
+    if kind == "c12:buf":
+        return isinstance(out, dict) and isinstance(out.get("enc"), dict) and (
+            "buf" in (out["enc"].get("vec") or {}) or "buf" in ((out.get("dec") or {}).get("vec") or {}))
+    if kind == "c12:bufops":
+        return isinstance(out, dict) and sum(1 for x in out.get("vec", []) if isinstance(x, dict) and "buf" in x) >= 2
+    if kind == "c12:misc":
+        return isinstance(out, list) and "ok" in out and any(isinstance(x, dict) for x in out)
     if not isinstance(out, list) or out[:1] != ["ok"]:
         return False
     for op, o in zip(case.get("ops", []), out[1:]):
